@@ -18,6 +18,18 @@ func init() {
 		calls := x.Calls(fd)
 		x.StrList("nextSegmentCalls", calls)
 		x.Bool("lookahead", CallIndex(calls, ".Peek") >= 0)
+		// the sender clamps the peer's Segment MRU (repair of D11); 0 = no clamp in the source
+		if v, err := x.Const(utilsDir, "MaxSegmentMtu"); err == nil {
+			x.Nat("maxSegmentMtu", v)
+		} else {
+			x.Nat("maxSegmentMtu", 0)
+		}
+		sk := x.Skeleton(fd)
+		head := sk
+		if len(head) > 5 {
+			head = head[:5]
+		}
+		x.StrList("nextSegmentHead", head)
 
 		// IncomingTransfer.NextSegment / TransferManager.Send skeletons are small and decisive.
 		if fd, err := x.Func(utilsDir, "IncomingTransfer", "NextSegment"); err == nil {
